@@ -75,26 +75,87 @@ def where_enum2(M, mask, st):
     return SArr((n,), lambda kk: f(Z(kk)), 'int'), SArr((n,), lambda kk: t(Z(kk)), 'int')
 
 
+def free_consts(term, acc=None, seen=None):
+    """uninterpreted constants occurring in a z3 term"""
+    acc = set() if acc is None else acc
+    seen = set() if seen is None else seen
+    if not is_z3(term):
+        return acc
+    stack = [term]
+    while stack:
+        t = stack.pop()
+        tid = t.get_id()
+        if tid in seen:
+            continue
+        seen.add(tid)
+        if z3.is_quantifier(t):
+            stack.append(t.body())
+            continue
+        if z3.is_app(t):
+            if t.num_args() == 0 and t.decl().kind() == z3.Z3_OP_UNINTERPRETED:
+                acc.add(t)
+            else:
+                stack.extend(t.children())
+    return acc
+
+
+def count_instance(M, st, ps, pred2, dims2, name='cnt'):
+    """ghost count  #{idx in box(dims) | pred}  as an uninterpreted function of the free parameters ps.
+    L-CARD facts are asserted for all parameter values; instances with predicates that agree on the box have equal counts
+    (extensionality, asserted pairwise against the earlier instances of the same path)."""
+    f = z3.Function(fresh_name(name), *([z3.IntSort()] * (len(ps) + 1)))
+    nd = len(dims2(ps))
+
+    def facts(pv):
+        dims = dims2(pv)
+        pred = lambda *ix: pred2(pv, ix)
+        c = f(*pv)
+        vs = [bvar('c') for _ in dims]
+        vs2 = [bvar('d') for _ in dims]
+        box = AND(*[in_range(v, 0, d) for v, d in zip(vs, dims)])
+        box2 = AND(*[in_range(v, 0, d) for v, d in zip(vs2, dims)])
+        total = Z(dims[0])
+        for d in dims[1:]:
+            total = total * Z(d)
+        out = [c >= 0, c <= total]
+        any_ = exists(vs, AND(box, pred(*vs)))
+        out.append((c == 0) == NOT(any_) if is_z3(any_) else ((c == 0) if any_ is False else (c > 0)))
+        two = exists(vs + vs2, AND(box, box2, pred(*vs), pred(*vs2), OR(*[a != b for a, b in zip(vs, vs2)])))
+        if is_z3(two):
+            out.append((c >= 2) == two)
+        all_ = forall(vs, IMPLIES(box, pred(*vs)))
+        if is_z3(all_):
+            out.append((c == total) == all_)
+        if len(dims) == 2 and EQ(dims[0], dims[1]) is not False:
+            n = Z(dims[0])
+            sq = EQ(dims[0], dims[1])
+            i, j = vs
+            diag_false = forall([i], IMPLIES(in_range(i, 0, n), NOT(pred(i, i))))
+            off_all = forall([i, j], IMPLIES(AND(box, i != j), pred(i, j)))
+            out.append(IMPLIES(AND(sq, diag_false), AND(c <= n * (n - 1), (c == n * (n - 1)) == off_all)))
+            half = z3.Function(fresh_name('half'), *([z3.IntSort()] * (len(ps) + 1)))
+            sym = forall([i, j], IMPLIES(box, Z(pred(i, j)) == Z(pred(j, i))))
+            out.append(IMPLIES(AND(sq, diag_false, sym), c == 2 * half(*pv)))
+        return AND(*out)
+    st.assume(forall(list(ps), facts(list(ps))))
+    reg = st.ghost.get('counts', ())
+    for (f2, np2, nd2, pred2b, dims2b) in reg:
+        if np2 != len(ps) or nd2 != nd:
+            continue
+        pv = list(ps)
+        d1, d2 = dims2(pv), dims2b(pv)
+        vs = [bvar('c') for _ in d1]
+        box = AND(*[in_range(v, 0, d) for v, d in zip(vs, d1)])
+        agree = forall(vs, IMPLIES(box, Z(pred2(pv, vs)) == Z(pred2b(pv, vs))))
+        st.assume(forall(pv, IMPLIES(AND(AND(*[EQ(a, b) for a, b in zip(d1, d2)]), agree), f(*pv) == f2(*pv))))
+    st.ghost['counts'] = tuple(reg) + ((f, len(ps), nd, pred2, dims2),)
+    M.ex.use('L-CARD:count facts (=0, >=2, =|box|, off-diagonal n(n-1), symmetric even, extensionality)')
+    return f
+
+
 def count_true(M, pred, dims, st, name='cnt'):
-    """ghost count of the true positions of pred over the index box ``dims`` (L-CARD facts)"""
-    c = z3.Int(fresh_name(name))
-    vs = [bvar('c') for _ in dims]
-    vs2 = [bvar('d') for _ in dims]
-    box = AND(*[in_range(v, 0, d) for v, d in zip(vs, dims)])
-    box2 = AND(*[in_range(v, 0, d) for v, d in zip(vs2, dims)])
-    total = Z(dims[0])
-    for d in dims[1:]:
-        total = total * Z(d)
-    any_ = exists(vs, AND(box, pred(*vs)))
-    st.assume(c >= 0)
-    st.assume(c <= total)
-    st.assume((c == 0) == NOT(any_) if is_z3(any_) else ((c == 0) if any_ is False else (c > 0)))
-    two = exists(vs + vs2, AND(box, box2, pred(*vs), pred(*vs2), OR(*[a != b for a, b in zip(vs, vs2)])))
-    st.assume((c >= 2) == two if is_z3(two) else z3.BoolVal(True))
-    all_ = forall(vs, IMPLIES(box, pred(*vs)))
-    st.assume((c == total) == all_ if is_z3(all_) else z3.BoolVal(True))
-    M.ex.use('L-CARD:count facts (=0, >=2, =|box|)')
-    return c
+    f = count_instance(M, st, [], lambda pv, ix: pred(*ix), lambda pv: list(dims), name)
+    return f()
 
 
 def truthy(M, st):
@@ -125,17 +186,12 @@ def arr_sum(M, a, axis, st, node):
         other = a.shape[1 - axis]
         along = a.shape[axis]
         if a.kind == 'bool' or a.kind == 'int':
-            cf = z3.Function(fresh_name('colcnt'), z3.IntSort(), z3.IntSort())
             sf = z3.Function(fresh_name('colsum'), z3.IntSort(), z3.IntSort())
-            j, i, i2 = bvar('j'), bvar('i'), bvar('i')
+            j, i = bvar('j'), bvar('i')
             el = (lambda ii, jj: a.get(ii, jj)) if axis == 0 else (lambda ii, jj: a.get(jj, ii))
             nz = lambda ii, jj: tr(el(ii, jj))
-            st.assume(forall([j], IMPLIES(in_range(j, 0, other), AND(
-                cf(j) >= 0, cf(j) <= Z(along),
-                (cf(j) == 0) == NOT(exists([i], AND(in_range(i, 0, along), nz(i, j)))),
-                (cf(j) >= 2) == exists([i, i2], AND(in_range(i, 0, along), in_range(i2, 0, along), i != i2, nz(i, j), nz(i2, j))),
-                (cf(j) == Z(along)) == forall([i], IMPLIES(in_range(i, 0, along), nz(i, j)))))))
-            M.ex.use('L-CARD:count facts (=0, >=2, =|box|)')
+            cff = count_instance(M, st, [j], lambda pv, ix: nz(ix[0], pv[0]), lambda pv: [along], 'colcnt')
+            cf = lambda jj: cff(Z(jj))
             if a.kind == 'bool':
                 return SArr((other,), lambda jj: cf(Z(jj)), 'int')
             zo = forall([i, j], IMPLIES(AND(in_range(i, 0, along), in_range(j, 0, other)), OR(EQ(el(i, j), 0), EQ(el(i, j), 1))))
@@ -476,8 +532,8 @@ _dict_ite = _val_ite
 def materialise(M, lazy, st):
     """turn a lazy iterable description into a heap list"""
     ex = M.ex
-    tag = lazy[0]
-    if tag == 'range':
+    tg = lazy[0]
+    if tg == 'range':
         _, lo, hi, step = lazy
         if step == 1:
             n = M.nonneg_diff(hi, lo)
@@ -488,13 +544,13 @@ def materialise(M, lazy, st):
             n = M.nonneg_diff(lo, hi)
             return st.alloc(SList(n, lambda k: Z(lo) - Z(k), INT))
         raise Unsupported('symbolic stepped range')
-    if tag == 'whereidx':
+    if tg == 'whereidx':
         _, mask, ax = lazy
         if mask.ndim == 1:
             w = where_enum(M, mask, st)
             return st.alloc(SList(w.shape[0], w.get, INT))
         raise Unsupported('where()[k] of a 2-d mask')
-    if tag == 'zip':
+    if tg == 'zip':
         parts = []
         for p in lazy[1]:
             pv = st.deref(p)
@@ -514,7 +570,7 @@ def materialise(M, lazy, st):
                 ex.oblige(st, 'zip-equal-length', same, None, text='zip over equally long sequences')
                 st.assume(same)
         return st.alloc(SList(n, lambda k: tuple(p[1](k) for p in parts), TTuple(*[p[2] for p in parts])))
-    if tag == 'enumerate':
+    if tg == 'enumerate':
         src = st.deref(lazy[1])
         if tag(src) in LAZY:
             src = st.deref(materialise(M, src, st))
@@ -523,14 +579,14 @@ def materialise(M, lazy, st):
         if not isinstance(src, SList):
             raise Unsupported('enumerate of %r' % (type(src),))
         return st.alloc(SList(src.n, lambda k: (k, src.get(k)), TTuple(INT, src.elem)))
-    if tag == 'reversed':
+    if tg == 'reversed':
         src = st.deref(lazy[1])
         if tag(src) in LAZY:
             src = st.deref(materialise(M, src, st))
         if not isinstance(src, SList):
             raise Unsupported('reversed of %r' % (type(src),))
         return st.alloc(SList(src.n, lambda k: src.get(Z(src.n) - 1 - Z(k)), src.elem))
-    if tag == 'filter':
+    if tg == 'filter':
         _, fn, srcv = lazy
         src = st.deref(srcv)
         if tag(src) in LAZY:
@@ -548,11 +604,11 @@ def materialise(M, lazy, st):
         st.assume(forall([k], IMPLIES(AND(in_range(k, 0, src.n), pred(src.get(k))), AND(in_range(hi(k), 0, L.n), h(hi(k)) == k))))
         ex.use('A-NUMPY:filter keeps exactly the elements satisfying the predicate, in order')
         return st.alloc(L)
-    if tag == 'items':
+    if tg == 'items':
         d = lazy[1]
         keys = st.deref(M.list_of_set(d.dom, st))
         return st.alloc(SList(keys.n, lambda k: (keys.get(k), d.val(keys.get(k))), TTuple(d.dom.elem, d.vtype)))
-    if tag == 'combinations':
+    if tg == 'combinations':
         _, S, r = lazy
         if r != 2:
             raise Unsupported('combinations(r != 2)')
@@ -562,8 +618,8 @@ def materialise(M, lazy, st):
         st.assume(forall([a, b], IMPLIES(ch(a, b), AND(S.member(a), S.member(b), a != b))))
         st.assume(forall([a, b], IMPLIES(AND(S.member(a), S.member(b), a != b), z3.Xor(ch(a, b), ch(b, a)))))
         ex.use('A-NUMPY:combinations(S,2) yields every unordered pair once (orientation unspecified)')
-        return M.list_of_set(SSet(lambda x: ch(Z(x[0]), Z(x[1])), TTuple(INT, INT)), st)
-    raise Unsupported('materialise ' + tag)
+        return st.alloc(SSet(lambda x: ch(Z(x[0]), Z(x[1])), TTuple(INT, INT)))
+    raise Unsupported('materialise ' + tg)
 
 
 def register(M):
